@@ -1,8 +1,12 @@
 ---- MODULE MCAuth ----
 EXTENDS Auth
+McPlainOnly == {<<>>}
 McPayCfgs == {<<>>, <<50, 50>>}
 McPaySenders == {<<>>, <<50, 50>>}
 McBoxCfgs == {<<>>, <<50, 50>>, <<49, 51>>}
 McNewCfgs == {<<100>>, <<50, 50>>}
-McPlainOnly == {<<>>}
+McReconfQuick == {<<>>, <<100>>, <<50, 50>>, <<49, 51>>}
+McReconfAll == Configs
+McNegNew == {<<100>>}
+McNegCfgs == {<<50, 50>>}
 ====
